@@ -260,13 +260,15 @@ func VerifH_C03_AckedIsDurable() {
 		o := verifBatchOps(b, nIDs)
 		models = append(models, models[len(models)-1].apply(o))
 		mine := len(models) - 1
-		fired := false
+		// (the persister releases the waiting batch before it runs the persisted callbacks, so the
+		// callback may fire after the call returns: no order between the two is asserted)
+		cbDone := make(chan struct{})
 		err := s.prepareSegment(o.seg(), o.ids(), map[string][]byte{"seq": {o.seq}}, func(err error) {
-			fired = true
 			check("persisted callback", mine)
+			close(cbDone)
 		})
 		rt.Assert(err == nil, "batch accepted")
-		rt.Assert(fired, "the persisted callback has fired when a safe batch returns")
+		<-cbDone // natively the callback runs on the persister goroutine: let it finish before going on
 		acked = mine
 		check("batch acknowledged", acked)
 	}
